@@ -498,3 +498,14 @@ fn replay(_sub: &str, case: &Json) -> Option<CaseResult> {
     }
     None
 }
+
+/// libFuzzer entry: a generated list or association-list case.
+pub fn fuzz(f: &mut FuzzIn) -> Option<CaseResult> {
+    if f.mode % 2 == 0 {
+        let c = f.draw(&g_list_case(0, 48))?;
+        Some(check_list(&c))
+    } else {
+        let c = f.draw(&g_alist_case())?;
+        Some(check_alist(&c))
+    }
+}
